@@ -1,8 +1,8 @@
 PROPERTY = "C03"
 LEVEL = "proof"
-LEAN_MODULES = ["CifModel.Props.C03", "CifModel.Lemmas.ParserTop", "CifModel.Lemmas.ParserDetProd", "CifModel.Lemmas.ParserDetLex", "CifModel.Lemmas.ParserDet"]
+LEAN_MODULES = ["CifModel.Props.C03", "CifModel.Lemmas.ParserTop", "CifModel.Lemmas.ParserQuiet", "CifModel.Lemmas.ParserDetProd", "CifModel.Lemmas.ParserDetLex", "CifModel.Lemmas.ParserDet"]
 REQUIRED = ["CifModel.C03_total", "CifModel.C03_clamp", "CifModel.C03_report_site", "CifModel.C03_prefix_determinism", "CifModel.C03_result",
-            "CifModel.C03_reported_partial", "CifModel.C03_die_is_first", "CifModel.C03_accept_all", "CifModel.C03_codes_nonzero",
+            "CifModel.C03_reported_partial", "CifModel.C03_reported", "CifModel.Model.Parser.parseInternal_die", "CifModel.C03_die_is_first", "CifModel.C03_accept_all", "CifModel.C03_codes_nonzero",
             "CifModel.Model.Parser.parse_spec", "CifModel.Model.Parser.blocksLoop_det", "CifModel.Model.Lexer.nextToken_detl"]
 GEN = ["ErrCodes", "CharClass", "ParseConsts"]
 FAMILIES = ["parse", "parsebytes"]
@@ -26,12 +26,14 @@ ASSUMPTIONS = [
     "names are normalised by a parameter `norm`; the driver instantiates ASCII case folding (exact for the generated alphabets)",
 ]
 PARTIAL = [
-    "C03_reported is proved as C03_reported_partial: a failure whose value is not one of the five codes the model can return on its "
-    "own (CIF_INTERNAL_ERROR, CIF_INVALID_INDEX, CIF_INVALID_ITEMNAME, CIF_DUP_ITEMNAME from cif_packet_create, the model's out-of-fuel "
-    "marker) has reported at least one error.  Missing for C03_reported_full: that those `fail` sites are unreachable (INTERNAL_ERROR, "
-    "cif_packet_create codes: needs the invariant that retained loop-header names are valid and distinct) or preceded by a report "
-    "(INVALID_INDEX: needs the scanner fact that every disallowed unit of a token text was reported).  Observed instead by the "
-    "oracle of family `parse` on every request (never fails without a report).",
+    "C03_reported is proved for every failure value except two: C03_reported says that a parse (any options, any policy, any "
+    "input, any initial target) that fails with a value other than CIF_INVALID_INDEX (73) and the model's out-of-fuel marker (1001) "
+    "has reported at least one error — the seven 'should not happen' exits (CIF_INTERNAL_ERROR x4, CIF_INVALID_ITEMNAME x2, "
+    "CIF_DUP_ITEMNAME) are proved unreachable before the first report (Lemmas/ParserQuiet).  Missing for C03_reported_full: "
+    "(a) CIF_INVALID_INDEX from cif_value_set_item_by_key on a table key with a disallowed character — needs the scanner fact that "
+    "every disallowed unit of a quoted key was reported (a lemma about Model/Lexer.scanDelim / keyPeek, not proved); (b) the "
+    "out-of-fuel marker — the fuel-suffices lemma.  Both are observed by the oracle of family `parse` on every request "
+    "(never fails without a report; 1001 never seen).",
     "C03_total: totality is by construction (Lean's termination check); the fuel-suffices lemma (the out-of-fuel marker 1001 is never "
     "the result for the fuel 2*|input|+16 that `parse` passes) is NOT proved — 1001 has never been observed in the correspondence.",
     "C03_callback_lines (every report has line >= 1) is not proved; checked by the oracle on every report of every request.",
